@@ -861,7 +861,7 @@ fn t_id(_t: &crate::world::TaskMeta, ev: &OpEvent) -> u64 {
 }
 
 pub fn clip(s: &str) -> String {
-    if s.len() > 300 {
+    if s.len() > 300 && std::env::var("SRVSIM_TRACE").as_deref() != Ok("full") {
         format!("{}…", &s[..300])
     } else {
         s.to_string()
